@@ -178,7 +178,9 @@ CHECKS["C09"] = dict(
         "Properties_C09.v, for every state and every fault schedule: StopIteration is raised only when every task sent is accounted for (a dead worker's unanswered task blocks the end of the "
         "epoch - never a short epoch as if complete); when main waits and an expected worker is dead the next poll expiry raises the worker-death error; the awaited task always belongs to an "
         "expected worker. For map-style datasets and EVERY fault schedule (SdlFaultMap.v): the outcomes are exactly the sampler's batches from the first on, closed by the worker-death error or by StopIteration only after the last batch, "
-        "no assertion fires, and the checkpoint after any delivered batch resumes exactly in a new iterator. Tie to the code: REAL worker processes are SIGKILLed at enumerated crash points (idle after k batches, inside the fetch of a chosen item, inside collate_fn, while the "
+        "no assertion fires, and the checkpoint after any delivered batch resumes exactly in a new iterator. For ITERABLE datasets and EVERY fault schedule (SdlIterProofs.v, "
+        "C09_iter_fault_run_never_wrong): the batches handed out are a prefix of the column-major interleave, in order, each once; the history ends with StopIteration only after all of them or "
+        "with the worker-death error; no assertion, and the model's 'nobody left to wait for' outcome is unreachable. Tie to the code: REAL worker processes are SIGKILLed at enumerated crash points (idle after k batches, inside the fetch of a chosen item, inside collate_fn, while the "
         "result is pickled, inside worker_init_fn, inside iter(dataset) at a persistent worker's epoch resume; one or two deaths) under a scheduled arrival order; the realised trace is replayed "
         "on the model and outcome sequences compared; oracle: delivered batches are a prefix of the reference, RuntimeError is raised within the deadline, never StopIteration short of the epoch, "
         "and the checkpoint taken before the death (pickled) resumes to the uninterrupted remainder in a fresh loader.",
